@@ -1,7 +1,7 @@
 (* Props/C15.v -- statements claimed for C15 (function transfer and smoothing), about Model/TriaFunc.v over R. *)
 From Coq Require Import List Arith Reals.
 From LaPyV Require Import Base.Scalar Base.Vec3 Base.ListAux Base.Sparse Model.TetMesh Model.TriaAdj Model.TriaOrient
-  Model.Fem Model.TriaGeom Model.TriaFunc Proofs.SparseP Proofs.TriaGeomP Proofs.TriaFuncP.
+  Model.Fem Model.TriaGeom Model.TriaFunc Proofs.SparseP Proofs.TriaGeomP Proofs.TriaFuncP Proofs.TfuncAreasP.
 Import ListNotations.
 Open Scope R_scope.
 
@@ -65,3 +65,9 @@ Proof.
   do 2 f_equal. repeat (apply f_equal2; [field|]). reflexivity.
 Qed.
 Print Assumptions C15_constants_to_constants_refuted.
+
+(* with weighted=True the constant 1 on triangles is mapped to exactly the list vertex_areas() returns, for every mesh *)
+Theorem C15_weighted_constant_one_maps_to_vertex_areas : forall v ts,
+  tfunc_to_vfunc_col Rops (S (maxn (tri_flat ts))) v ts true (repeat 1 (length ts)) = vertex_areas Rops v ts.
+Proof. exact weighted_one_maps_to_vertex_areas. Qed.
+Print Assumptions C15_weighted_constant_one_maps_to_vertex_areas.
